@@ -191,14 +191,31 @@ pub fn run_case(ctx: &Ctx, env: &Env, cs: u64, side: &mut Option<std::fs::File>)
         delivery_optional: true,
         bound_ms: 3000,
         sched: Sched::Immediate,
+        keep_read_track: true,
     };
     let panics_before = crate::env::panics_count();
+    let acc0 = crate::env::accepted_count();
+    let con0 = crate::net::CONNECTS.load(std::sync::atomic::Ordering::SeqCst);
+    if std::env::var("VH_ALLOC_TRACE").is_ok() {
+        crate::alloc::trace_allocations_over(64 * 1024);
+    }
     crate::alloc::track_begin();
     let obs = run_conv(env, &case);
-    // let the connection thread finish its work for this case before reading the counters
-    crate::util::sleep_us(300);
+    // attribution: the connection thread of this case must be done before the counters are read
+    // (a client that resets early returns long before the server has chewed through a long line)
+    let made = crate::net::CONNECTS.load(std::sync::atomic::Ordering::SeqCst) - con0;
+    let quiet = crate::env::wait_tasks_done(acc0 + made, std::time::Duration::from_secs(5));
+    crate::env::reads_forget(obs.client_port);
     let st = crate::alloc::track_end();
     let sent = wl as u64;
+    if !quiet {
+        // the connection thread is still busy: allocation counters cannot be attributed
+        rep.inconclusive("connection task did not finish within 5 s after the case");
+        if let Some(f) = side.as_mut() {
+            let _ = writeln!(f, "END {}", cs);
+        }
+        return;
+    }
     let class = c.label.split(':').next().unwrap_or("").split('+').next().unwrap_or("").to_string();
     rep.inc(&format!("class:{}", class));
     rep.counts.max("largest_single_allocation_request", st.max_single);
@@ -216,6 +233,7 @@ pub fn run_case(ctx: &Ctx, env: &Env, cs: u64, side: &mut Option<std::fs::File>)
             .set("plans", J::A(c.plans.iter().map(|p| J::s(format!("read={:?} finish={}", p.read, p.finish_label()))).collect()))
             .set("client_end", J::s(format!("{:?}", c.end)))
             .set("alloc", J::s(format!("{:?}", st)))
+            .set("largest_allocation_backtrace", J::s(crate::alloc::take_trace()))
             .set("deliveries", J::A(obs.delivered.iter().map(|d| d.to_json()).collect()))
             .set("extra", extra)
     };
@@ -233,7 +251,8 @@ pub fn run_case(ctx: &Ctx, env: &Env, cs: u64, side: &mut Option<std::fs::File>)
         });
         fired = true;
     }
-    let limit_single = (64 * 1024).max(4 * sent);
+    // a Vec of parsed headers costs 48 bytes per header line of >= 4 bytes and doubles: <= 24x
+    let limit_single = (64 * 1024).max(32 * sent);
     if !fired && st.max_single > limit_single {
         rep.violation(Violation {
             signature: format!("C14/allocation-proportional-to-declared-length/{}", class),
@@ -278,6 +297,7 @@ pub fn run_case(ctx: &Ctx, env: &Env, cs: u64, side: &mut Option<std::fs::File>)
 
 pub fn run(ctx: &Ctx) {
     crate::env::install_fp_hook();
+    crate::env::track_reads(true);
     // an absurd allocation must fail fast instead of being lazily granted
     unsafe {
         let lim = libc::rlimit { rlim_cur: 8 << 30, rlim_max: 8 << 30 };
